@@ -30,6 +30,7 @@ def _one(tree):
         for bits in itertools.product([0, 1], repeat=len(CT.ALL_PREDS)):
             val = dict(zip(CT.ALL_PREDS, bits))
             val.update({v: 0 for v in tags.values()})
+            val['__regd'] = 0
             acts = CT.interp(IntOps, tree, val, tags)
             for tg, lst in acts.items():
                 if sum(1 for c, _ in lst if c) > 1:
@@ -46,8 +47,9 @@ def _one(tree):
         Wc = CT.W + 4
         o = BVOps(Wc)
         sval = {n: SV.lift(t, Wc) for n, t in ins.items()}
-        acts = CT.interp(o, tree, sval, tags)
         bn = block.wirevector_by_name
+        sval['__regd'] = SV.lift(st['regs'][bn['regd']], Wc)
+        acts = CT.interp(o, tree, sval, tags)
         goals = []
 
         def eq(term, sv):
